@@ -604,7 +604,7 @@ fn main() {
     // an `ident @ subpattern` argument pattern next to wildcards / plain bindings is as refutable as its sub-pattern
     run_case("sel.matching-at-binding", || {
         let u = Unimock::new((
-            SelMock::two.each_call(matching!(_n @ 1..=5, _)).returns(10u32).at_least_times(0),
+            SelMock::two.each_call(matching!(n @ 1..=5, _)).returns(10u32).at_least_times(0),
             SelMock::two.each_call(matching!(_m @ (7 | 8), _q)).returns(15u32).at_least_times(0),
             SelMock::two.each_call(matching!(_, _)).returns(20u32).at_least_times(0),
         ));
